@@ -11,7 +11,7 @@ several methods must return the successful fit with the smallest pseudo chi-squa
 """
 from __future__ import annotations
 
-from .common import call, same, is_symbolic, PathAbort
+from .common import call, same, is_symbolic, PathAbort, replay_tiers
 from . import c08, c17
 from .c16 import FakeParameters
 
@@ -65,6 +65,12 @@ def obligations(tier: str):
                               bounds="fit_circuit(%s), leastsq/boukamp%s; start values, limits (finite; first parameter also infinite), fixed flags symbolic; 3 unmasked + 1 masked points"
                                      % (cdc, ", one constraint expression" if we else ""), functions=funcs, stubs=stubs, expect_reach=["fit"], mode="fresh",
                               max_paths=1000000))
+    for cdc, ms in ((("R", ("leastsq", "nelder")),) if tier == "quick" else (("R", ("leastsq", "nelder", "powell")), ("RC", ("leastsq", "nelder")))):
+        obs.append(Obligation("fit.%s.multi" % cdc, c08.make_fit_harness(cdc, False, ms),
+                              bounds="fit_circuit(%s), methods %s one after the other in the calling process, weight boukamp; start values, limits, fixed flags symbolic; "
+                                     "3 unmasked + 1 masked concrete points" % (cdc, "/".join(ms)), functions=funcs,
+                              stubs=stubs + ["a fresh set of fitted values per minimize call", "log10 is strictly increasing (sort key)"], expect_reach=["fit"], mode="fresh",
+                              max_paths=1000000))
     obs.append(Obligation("selection", c17.make_fit_harness(3), bounds="3 methods, each succeeding or failing, symbolic pairwise distinct pseudo chi-squared values, serial and parallel",
                           functions=[fit.fit_circuit], stubs=stubs, expect_reach=["fit"]))
     obs.append(Obligation("start_outside", make_start_outside_harness(), bounds="R with limits [1, 100] and a symbolic start value", functions=[fit._to_lmfit],
@@ -86,7 +92,7 @@ OUTSIDE = ["recovery of the generating parameters and vanishing pseudo chi-squar
 
 def replay(obligation: str, witness):
     from sx.concrete import run_concrete
-    for tier in ("thorough", "quick"):
+    for tier in replay_tiers():
         for ob in obligations(tier):
             if ob.name == obligation:
                 reproduced, msg, _ = run_concrete(ob.harness, witness)
